@@ -1055,7 +1055,7 @@ func main() {
 		"evaluations = Extract calls + containment scans; distinct_nontrivial = distinct (extractor, placement, mutant bytes) whose Extract returned an error or >= 1 package (empty error-free results are not counted). "+
 		"Containment: for each extractor and each error class (first 48 chars of the error text, paths/quoted text/digits removed; first %d classes per extractor in enumeration order) the first mutant of that class is scanned by scalibr.Scanner.Scan next to a healthy requirements.txt (dpkg status for python/requirements): "+
 		"the scan completes, the healthy extractor's packages and status equal those of the scan without the bad file, and the failing extractor's status is Failed or PartiallySucceeded. "+
-		"Engine confinement, independent of what real extractors return today: a harmless extractor returning each of 18 error classes (nil, custom, wrapped/bare context.DeadlineExceeded and context.Canceled while the scan's context is alive, os.ErrDeadlineExceeded, io.EOF/ErrUnexpectedEOF, fs.ErrPermission/ErrNotExist/SkipDir/SkipAll, the memory-limit sentinel, joined errors, errors together with packages) x bad file before/after/on both sides of a good file in the walk x both plugin-list orders is scanned next to a recording extractor and two healthy files of the failing extractor itself (one visited before, one after the bad file): Scan returns, the recording extractor's package and SUCCEEDED status are present, the failing extractor's packages for its two healthy files are present (confinement is per FILE) and it has a status (FAILED/PARTIALLY_SUCCEEDED iff it returned an error); the same with the real java/archive (MaxOpenedBytes 256 KiB), an over-budget jar and two healthy jars.",
+		"Engine confinement, independent of what real extractors return today: a harmless extractor returning each of 18 error classes (nil, custom, wrapped/bare context.DeadlineExceeded and context.Canceled while the scan's context is alive, os.ErrDeadlineExceeded, io.EOF/ErrUnexpectedEOF, fs.ErrPermission/ErrNotExist/SkipDir/SkipAll, the memory-limit sentinel, joined errors, errors together with packages) x bad file before/after/on both sides of a good file in the walk x both plugin-list orders is scanned next to a recording extractor and two healthy files of the failing extractor itself (one visited before, one after the bad file), the recording extractor requiring the bad file too: Scan returns, the recording extractor's package for the bad file itself is present, the recording extractor's package and SUCCEEDED status are present, the failing extractor's packages for its two healthy files are present (confinement is per FILE) and it has a status (FAILED/PARTIALLY_SUCCEEDED iff it returned an error); the same with the real java/archive (MaxOpenedBytes 256 KiB), an over-budget jar and two healthy jars.",
 		len(names), len(minimalDocs), b.truncAll, b.lineOps, b.sigmaAll, b.sigmaLine, b.byteOps, b.nullify, b.lineCut, b.caseIns, b.caseLine, b.binFF, b.emptify, b.uniSpace, b.longLine, c.watchdog, maxClassesPerExtractor)
 	r.Finish(rule, true)
 }
